@@ -175,7 +175,15 @@ def render_canonical(spec, cls_suffix="", _providers_only=False, _uid=None):
     # listener + model classes
     for prov in listeners + ["model"]:
         cname = f"Mod_{uid}" if prov == "model" else f"{prov.upper()}_{uid}"
-        if prov == "model" and spec.get("mixin"):
+        if prov == "model" and spec.get("mixin") == "first":
+            # the mixin listed FIRST; the other base's __init__ receives the stored columns (a row loaded
+            # from storage), so the machine must be built after that __init__ has run
+            fld = spec.get("state_field", "state")
+            L += [f"class Rec_{uid}:", "    def __init__(self, stored=None):", f"        self.{fld} = stored", ""]
+            L.append(f"class {cname}(MachineMixin, Rec_{uid}):")
+            L.append(f"    state_machine_name = 'vmon_dyn_{uid}.M_{uid}'")
+            L.append("    bind_events_as_methods = True")
+        elif prov == "model" and spec.get("mixin"):
             L.append(f"class {cname}(MachineMixin):")
             L.append(f"    state_machine_name = 'vmon_dyn_{uid}.M_{uid}'")
             L.append("    bind_events_as_methods = True")
